@@ -17,7 +17,8 @@ and operation:
   refusal and `+1` on acceptance;
 * `C12_recv_excess_disconnects`, `C12_publishRecv_*` — receiver side;
 * the exact equation: `C12_credit_invariant_partial` (per-transition, on a live connection),
-  `C12_resume_recount`, `C12_vacancy_returns`; the full statement over all histories is **false**:
+  `C12_resume_recount`, `C12_vacancy_returns`, `C12_new_session_credit` (fix 9ba24a9: a new
+  session starts with the counter at 0); the full statement over all histories is **false**:
   `C12_credit_invariant_full_false` with three `decide`d witnesses (findings #28, #29).
 -/
 set_option linter.unusedSimpArgs false
@@ -316,6 +317,18 @@ theorem C12_vacancy_returns (s : St) (limbo : List Nat) (M : Nat) (heq : CreditE
   have := heq M hM
   simp [waitCount, h1, h2, h3, h4] at this
   simp [vacancy, hM, this]
+
+/-- fix 9ba24a9: the start of a new session (`clearStoreRelated`: CONNECT sent / received with
+    clean start, CONNACK sent / received with session_present = false or Session Expiry 0)
+    re-establishes the equation from **any** state — no exchange is left, the counter is 0 and the
+    vacancy is the full Receive Maximum (before the fix the stale counter survived) -/
+theorem C12_new_session_credit (c : C) :
+    (clearStoreRelated c).s.sendCount = 0 ∧ waitCount (clearStoreRelated c).s = 0 ∧
+    CreditEq (clearStoreRelated c).s [] ∧
+    (∀ M, c.s.sendMax = some M → vacancy (clearStoreRelated c).s = some M) := by
+  refine ⟨rfl, rfl, fun _ _ => rfl, ?_⟩
+  intro M hM
+  simp [vacancy, clearStoreRelated, hM]
 
 /-! ## non-vacuity -/
 namespace C12Ex
